@@ -64,6 +64,15 @@ class Box:
         return f'Box<{self.kind}>({self.items if self.term is None else self.term})'
 
 
+class MetaBox:
+    """the metadata dict of an AST object.  metadata is declared eq=False: it is outside the value model, so
+    the prover only tracks the *identity* of these dicts; reads and updates of their contents are not
+    interpreted (checked natively in the bounded tier instead)."""
+
+    def __init__(self, owner=None):
+        self.owner = owner
+
+
 class Exc:
     """an exception value"""
 
